@@ -108,7 +108,8 @@ func (r *Result) Rows() []Row {
 
 // Stmt is one recorded statement.
 type Stmt struct {
-	Script  *Result // request-scoped script the statement ran under (identifies the request)
+	Strings []string // values served by a single-column statement (label lists)
+	Script  *Result  // request-scoped script the statement ran under (identifies the request)
 	SQL     string
 	Cols    []string
 	Class   string
@@ -530,6 +531,9 @@ func ValueFor(col, sqlText string, row Row, idx int, ncols int, res *Result) dri
 	case "duration_ms":
 		return float64(1.5)
 	}
+	if res.CtrlBytes {
+		return fmt.Sprintf("%s-%d%s", c, idx, []string{"", " \"q\"", "\\", "\x1b[0m", "\x00", "é\u2028", "<&>"}[idx%7])
+	}
 	return fmt.Sprintf("%s-%d", c, idx)
 }
 
@@ -572,6 +576,11 @@ func (r *rows) Next(dest []driver.Value) error {
 	row := r.data[r.pos]
 	for i, c := range r.cols {
 		dest[i] = ValueFor(c, r.sql, row, r.pos, len(r.cols), &r.res)
+	}
+	if len(r.cols) == 1 && len(r.st.Strings) < 5000 {
+		if sv, ok := dest[0].(string); ok {
+			r.st.Strings = append(r.st.Strings, sv)
+		}
 	}
 	r.pos++
 	r.st.Served = r.pos
